@@ -12,6 +12,8 @@ class K { d: D; w: W }
 class C { let n: N; pass ":"; xs: /[ab]/{n}; requires `len(xs) == n`; m: `n + 1` }
 class Z { o: Opt("a") }
 class R { head: D; rest: Opt(R) }
+Rpt(item, k) = item{k}
+class F { n: N; ws: Rpt(/[ab]/, n); let m: N; more: Opt(Rpt(item="!", k=m)) }
 '''
 VARS = ['x', 'y', 'n']
 
@@ -95,6 +97,8 @@ FIXED = [
     r'[(let x = D in `x`), (let y = W in `y`)]*',
     r'let n = N in [("a"{n} | "b"{n}), `n`]',
     r'(let x = "a" in [`x`, "b"]) | (let x = "a" in [`x`, "a"])',
+    # a class field used as a bare argument of a template (its value is passed)
+    r'F', r'F+', r'[F, Opt(K)]',
 ]
 def shadow_recovery_stratum():
     """a let that shadows an outer binding whose BODY fails, the failure being recovered by a later alternative, an
